@@ -1,5 +1,6 @@
 CONSTANTS Menu = "quick"
  Emit = TRUE
+ Repaired = {"blPrefix"}
 SPECIFICATION Spec
-INVARIANT CaseOK
+INVARIANTS CaseOK CodeModelConforms
 CHECK_DEADLOCK FALSE
